@@ -9,7 +9,7 @@
 (* indices, so that TLC's workers share the file.  The driver checks that  *)
 (* the number of distinct states equals the number of records.             *)
 (***************************************************************************)
-EXTENDS OpenCode, Json, IOUtils
+EXTENDS GenProps, Json, IOUtils
 
 CONSTANTS W,      \* number of chains
           PROP    \* property id, e.g. "C02"
@@ -67,6 +67,10 @@ Clauses(r) ==
             <<"C08_float_value", C08_float_value(r)>> >>
     [] PROP = "C11" ->
          << <<"C11_tokens", C11_tokens(r)>>, <<"C11_errors", C11_errors(r)>> >>
+    [] PROP = "C12" ->
+         << <<"C12_no_errors", C12_no_errors(r)>>, <<"C12_config", C12_config(r)>> >>
+    [] PROP = "C13" -> << <<"C13_expect", C13_expect(r)>> >>
+    [] PROP = "C14" -> << <<"C14_diag", C14_diag(r)>> >>
     [] OTHER -> <<>>
 
 \* relational properties: the record is a tuple of results
